@@ -7,7 +7,8 @@ This file pins down the one thing about them that the termination clause depends
 of the target, the two cast flags and the kind of the input.  Mirrors, site by site
 
   utils/functional.py:7-10      multi()                         (the isinstance tuple; tied by an AST check every run)
-  utils/transform.py:143-160    _attempt_from                   list(value)[0] for a multi, non-empty value
+  utils/transform.py:143-162    _attempt_from                   next(iter(value)): the first item only (fixes/C04-container-protocol-and-init-names;
+                                                                before: list(value)[0], a walk through all of it)
   utils/transform.py:255-310    to_array_types                  t(data) for a multi value
   utils/transform.py:311-395    to_dict                         pairs of any iterable / the final t(data)
   utils/transform.py:509-570    to_datetime                     `"GMT" in data` only on text (fixes/C04-datetime-iterates-input)
@@ -52,11 +53,13 @@ structure Flags where
   noExplicitCast : Bool := false
   noDataLoss : Bool := false
   legacyDatetime : Bool := false   -- before fixes/C04-datetime-iterates-input: `"GMT" in data` on any object
+  legacyAttemptFrom : Bool := false -- before: `list(value)[0]` walked through a sized input to take its first item
   deriving DecidableEq, Repr
 
-/-- `_attempt_from(value)` walks through the value (`list(value)[0]`) — transform.py:143-160 -/
+/-- `_attempt_from(value)` walks through the value — only the pre-fix `list(value)[0]` did (transform.py:143-162);
+`next(iter(value))` pulls one item (a sized input of one item is thereby "consumed": there is nothing else in it) -/
 def attemptFrom (f : Flags) : InKind → Bool
-  | .sized n => !f.noExplicitCast && n != 0 && !(f.noDataLoss && n > 1)
+  | .sized n => !f.noExplicitCast && n != 0 && !(f.noDataLoss && n > 1) && (f.legacyAttemptFrom || n == 1)
   | _ => false
 
 /-- does converting an input of kind `k` to the target consume the input object? -/
